@@ -37,6 +37,11 @@ def _reciprocal(val):
     return 1 / val
 
 
+_UFUNC_OPERATORS = {np.add: operator.add, np.subtract: operator.sub,
+                    np.multiply: operator.mul, np.true_divide: operator.truediv,
+                    np.power: operator.pow}
+
+
 class Prior(HoloPyObject):
     """
     Base class for Bayesian priors in holopy.
@@ -108,6 +113,16 @@ class Prior(HoloPyObject):
 
     def __array_ufunc__(self, ufunc, method, *args, name=None, **kwargs):
         if method == "__call__" and len(kwargs) == 0:
+            operation = _UFUNC_OPERATORS.get(ufunc)
+            if (operation is not None and name is None and len(args) == 2
+                    and all(isinstance(arg, (Prior, Number)) for arg in args)):
+                # numpy_scalar * prior etc. arrive here and not in __rmul__:
+                # treat them like the same operation with a python number
+                # (adding 0 or multiplying by 1 gives the prior itself,
+                # multiplying by 0 raises)
+                args = [arg.item() if isinstance(arg, np.generic) else arg
+                        for arg in args]
+                return operation(*args)
             return TransformedPrior(ufunc, args, name)
         else:
             raise TypeError('Could not apply numpy ufunc to Prior object. '
